@@ -69,9 +69,15 @@ structure Source where
 /-- the `BlockSourceError` of a failing request -/
 def Source.err (s : Source) (r : Req) : Err := if s.transient r then .transient else .source
 
-/-- `BlockSourceError::kind() == Transient` -/
+/-- `BlockSourceError::kind() == Transient`; the kinds of the errors the library itself constructs (genesis test of
+    ChainPoller::look_up_previous_header, the two locator errors of find_difference_from_best_block) are TRANSLATED
+    from the constructor named in the Rust text (Generated/ChainSync.lean); what `Validate` / check_builds_on refuse
+    is `persistent` (pinned by the translator's ERR shape) -/
 def Err.isTransient : Err → Bool
   | .transient => true
+  | .genesis => genesisErrTransient
+  | .noLocator => noLocatorErrTransient
+  | .locatorHeight => locatorHeightErrTransient
   | _ => false
 
 /-- mirrors BlockSource::get_best_block (request `req`) -/
@@ -338,16 +344,18 @@ structure Phase1 where
   req : Nat
   most : List Hdr
   per : List (List Nat × List Notif)
+  /-- the `BlockSourceError` the `?` of the first loop returned (`none` iff `ok`) -/
+  err : Option Err := none
 deriving Repr
 
 /-- first loop of synchronize_listeners: `find_difference_from_best_block(..).await?`, then the translated
     per-listener body `initListenerStep` (Generated/ChainSync.lean: which disconnects, which height is recorded,
     what becomes of most_connected_blocks — including any early `continue`) -/
 def phase1 (s : Source) (best : Hdr) : List Locator → Cache → Nat → List Hdr → Phase1
-  | [], c, req, most => ⟨true, c, req, most, []⟩
+  | [], c, req, most => ⟨true, c, req, most, [], none⟩
   | l :: ls, c, req, most =>
     match findDiffFromBestBlock s c req best l with
-    | .error (_, r) => ⟨false, c, r, most, (l :: ls).map (fun _ => ([], []))⟩
+    | .error (e, r) => ⟨false, c, r, most, (l :: ls).map (fun _ => ([], [])), some e⟩
     | .ok ((d, c1), req1) =>
       let st := initListenerStep best l.hash l.height d.common d.connected most
       -- header_cache.retain_on_disconnect = true: blocks_disconnected leaves the cache alone
@@ -362,6 +370,24 @@ def fetchAll (s : Source) : List Hdr → Nat → Bool × Nat
   | b :: rest, req =>
     let (ok, r) := fetchAll s rest (req + 1)
     ((match s.getBlock req b with | .ok _ => true | .error _ => false) && ok, r)
+
+/-- the error `block_res?` returns for a batch: results are looked at in fetch order (oldest block first), so it is the
+    error of the FIRST failing fetch of the batch even when a later one failed too; `none` = every fetch succeeded -/
+def firstFetchErr (s : Source) : List Hdr → Nat → Option Err
+  | [], _ => none
+  | b :: rest, req => match s.getBlock req b with
+    | .error e => some e
+    | .ok _ => firstFetchErr s rest (req + 1)
+
+/-- the error a failed second loop returns: the first failing fetch of the first failing batch (same batching as `phase2`;
+    `phase2_fails_iff`: it is `some` exactly when `phase2` fails) -/
+def phase2Err (s : Source) (k : Nat) : Nat → List Hdr → Nat → Option Err
+  | 0, _, _ => none
+  | n + 1, asc, req =>
+    if asc.isEmpty then none
+    else match firstFetchErr s (asc.take k) req with
+      | some e => some e
+      | none => phase2Err s k n (asc.drop k) (req + (asc.take k).length)
 
 def connectedFor (lh : Nat) (chunk : List Hdr) : List Notif :=
   (chunk.filter (fun b => initDelivers (batchHeight b) lh)).map (fun b => Notif.connected b.hash (batchHeight b))
@@ -404,12 +430,12 @@ def synchronizeListeners (s : Source) (ls : List Locator) : InitOut :=
     | .error e => ⟨.error e, empties, 2⟩
     | .ok best =>
       let p1 := phase1 s best ls [] 2 []
-      if !p1.ok then ⟨.error .source, p1.per.map (·.2), p1.req⟩
+      if !p1.ok then ⟨.error (p1.err.getD .source), p1.per.map (·.2), p1.req⟩
       else
         let asc := batchOrder p1.most
         let (ok, c, r, delivered) := phase2 s MAX_BLOCKS_AT_ONCE asc.length asc p1.cache p1.req
         let ns := p1.per.map (fun p => p.2 ++ p.1.flatMap (fun lh => connectedFor lh delivered))
-        if ok then ⟨.ok (best, c), ns, r⟩ else ⟨.error .source, ns, r⟩
+        if ok then ⟨.ok (best, c), ns, r⟩ else ⟨.error ((phase2Err s MAX_BLOCKS_AT_ONCE asc.length asc p1.req).getD .source), ns, r⟩
 
 /-! ### an arbitrary (adversarial) source seen through the Validate layer -/
 
